@@ -20,7 +20,9 @@ CutOffs(c) ==
       pts == {p \in GridFrom(m.vars, 1, D) : NLExact(m, p, D) /\ NLSat(m, p, D)}
       outside(p) == LET x == CHOOSE x \in Canon(d, p, D) : TRUE
                     IN {i \in (n0 + 1)..Len(d.vars) :
-                          x[i] < d.vars[i].lb \/ x[i] > d.vars[i].ub \/ (d.vars[i].int /\ x[i] % D # 0)}
+                          \* (clipped: the recorder cut a huge bound down for the search of C01; not the real bound)
+                          \/ (~d.vars[i].clipped /\ (x[i] < d.vars[i].lb \/ x[i] > d.vars[i].ub))
+                          \/ (d.vars[i].int /\ x[i] % D # 0)}
   IN [feasible |-> Cardinality(pts),
       determined |-> Cardinality({p \in pts : Canon(d, p, D) # {}}),
       cut |-> {<<p, outside(p)>> : p \in {q \in pts : Canon(d, q, D) # {} /\ outside(q) # {}}}]
